@@ -93,7 +93,33 @@ def check(ctx):
                     ctx.expect("if(P%d)" % i_flag in t or "then(P%d," % i_flag in t, "C14.3", "marker-consumed/" + pr, site(arm), "the needs-marker flag decides whether the marker is emitted in this form",
                                "the %s form ignores the unused-parameter marker flag: a struct of this form with unused type parameters gets no PhantomData" % pr)
         else:
-            ctx.bad("C14.3", "missing-anchor/named-unnamed-match", fe["sp"], "match on (all_named, all_unnamed) not found")
+            # the forms are not chosen by a match on the two flags: the same is read off the function's term - every template that is a result
+            # of the function (not one built per field inside a closure) either stands under the flag or has a piece that does
+            from rules.core.norm import subterms as _subterms
+            FLAG = ("param", i_flag)
+            results = []
+
+            def visit(x, under):
+                if x[0] == "closure":
+                    return
+                if x[0] == "if":
+                    u = under or x[1] == FLAG
+                    visit(x[2], u)
+                    visit(x[3], under)
+                    return
+                if x[0] == "tpl" and x[2]:
+                    has = under or any(sl[0] == "call" and sl[1] == "then" and sl[2] and sl[2][0] == FLAG or (sl[0] == "if" and sl[1] == FLAG) for sl in x[3])
+                    results.append((x[2], has))
+                    return
+                from rules.core.norm import _direct_children
+                for c_ in _direct_children(x):
+                    visit(c_, under)
+            visit(Nf.term(fe["body"]), False)
+            if len(results) < 3:
+                ctx.bad("C14.3", "missing-anchor/named-unnamed-match", fe["sp"], "the three forms of a field list (unit, tuple, named) were not found in fields_example")
+            for text, has in results:
+                ctx.expect(has, "C14.3", "marker-consumed/" + text[:40], fe["sp"], "the needs-marker flag decides whether the marker is emitted in this form",
+                           "the form `%s` ignores the unused-parameter marker flag: a struct of this form with unused type parameters gets no PhantomData" % text[:60])
     DR.expect_golden(ctx, "C14.4", "fields-example", "rust/fields_example", "rust_value::fields_example",
                      "named: `{ name: value, .. marker? }`; unnamed: `( value, .. marker? )`; unit: `(marker)?`; values via resolve(field.ty.id) in order, Compact(..) only around explicitly Compact-typed fields")
     DR.expect_golden(ctx, "C14.4", "marker-source", "rust/has_unused_type_params", "has_unused_type_params",
